@@ -47,6 +47,10 @@ RAND_PREFIXES = ("numpy.random.", "random.", "secrets.", "uuid.", "os.urandom", 
                  "time.process_time", "datetime.", "sklearn.")
 
 
+GV_ROOT = "<gv>"            # pseudo-parameter: the arrays held by the global grid object
+GV_ARRAYS = ("t", "w")
+
+
 class Summary:
     def __init__(self, fi: FuncInfo):
         self.fi = fi
@@ -349,6 +353,9 @@ class Effects:
             if rr is not None and not (isinstance(_rootname(e), str) and _rootname(e) in env):
                 if rr.startswith(f"{PKG}.typing.gv."):
                     s.reads_gv.append(e)
+                    attr = rr[len(f"{PKG}.typing.gv."):]
+                    if attr.split(".")[0] in GV_ARRAYS:
+                        return {(GV_ROOT, "." + attr)}     # the global grid's own arrays: aliasing them hands out shared state
                 return set()
             br = self.roots(e.value, fi, s, env, fld)
             return {(p, _cap(path + "." + e.attr)) for (p, path) in br}
@@ -641,8 +648,13 @@ class Effects:
             return kw_roots.get(p, set())
         out = set()
         for (p, path) in cs.ret:
+            if p == GV_ROOT:
+                out.add((p, path))
+                continue
             out |= {(q, _cap(qp + path)) for (q, qp) in actual(p)}
         for (p, path), n in cs.mutates.items():
+            if p == GV_ROOT and (p, path) not in s.mutates:
+                s.mutates[(p, path)] = node if node is not None else n
             for (q, qp) in actual(p):
                 k = (q, _cap(qp + path))
                 if k not in s.mutates:
